@@ -333,6 +333,23 @@ OWN_BASES = {'CoherenceAnalyzer': {}, 'SpectralAnalyzer': {}, 'NormalizationAnal
 OWN_ORDERS = ('ancestor-first', 'subclass-first', 'base-analyzer-first', 'mixin-first')
 
 
+# WHERE the user subclass gets its one-time result from (the class of the MRO whose dictionary holds the getter):
+#   body           the subclass body itself                                   class Own(X): total
+#   rm-base        an intermediate base derived from the nitime class          class Mid(X): total;  class Own(Mid)
+#   rm-mixin       a mix-in that itself derives from ResetMixin                class Mix(ResetMixin): total;  class Own(X, Mix)
+#   mixin-after    a PLAIN mix-in (derives from object only), listed after X   class Mix: total;  class Own(X, Mix)
+#   mixin-before   the same, listed before X                                   class Own(Mix, X)
+#   grand-mixin    a plain mix-in two levels up                                class Mix: total;  class Mid(X, Mix);  class Own(Mid)
+#   mixin-parent   the getter sits in the PARENT of the plain mix-in           class Top: total;  class Mix(Top);  class Own(Mix, X)
+# `reset` has to forget the result wherever in the MRO its getter lives (C14-16: the walk skipped every class that is
+# not derived from ResetMixin).
+OWN_WHERE = ('rm-base', 'rm-mixin', 'mixin-after', 'mixin-before', 'grand-mixin', 'mixin-parent')
+OWN_WHERE_ORDERS = ('subclass-first', 'ancestor-first')
+
+
+own_class = OS.own_class
+
+
 def own_keys():
     ks = []
     for b in OWN_BASES:
@@ -341,6 +358,15 @@ def own_keys():
                 ks.append('own-onetime/%s/stale-after-%s/%s' % (b, opn, order))
     for order in ('ancestor-first', 'subclass-first', 'mixin-first'):
         ks.append('own-onetime/Epochs/stale-after-slice/%s' % order)
+    # the same experiments with the getter in another class of the MRO (`<order>@<where>`)
+    for b in OWN_BASES:
+        for where in OWN_WHERE:
+            for order in OWN_WHERE_ORDERS:
+                for opn in ('set_input', 'reset'):
+                    ks.append('own-onetime/%s/stale-after-%s/%s@%s' % (b, opn, order, where))
+    for where in OWN_WHERE:
+        for order in OWN_WHERE_ORDERS:
+            ks.append('own-onetime/Epochs/stale-after-slice/%s@%s' % (order, where))
     return ks
 
 
@@ -355,6 +381,8 @@ def own_one(key):
     from nitime.analysis.base import BaseAnalyzer
     out = []
     _, base_name, opn, order = key.split('/')
+    order, _, where = order.partition('@')
+    where = where or 'body'
     opn = opn[len('stale-after-'):]
     rs = np.random.RandomState(5)
     x1 = ts.TimeSeries(rs.randn(3, 128), sampling_rate=10.0)
@@ -366,7 +394,7 @@ def own_one(key):
         def total(self):
             x = self.__dict__.get('input')      # (GrangerAnalyzer keeps no `input` before set_input)
             return float(np.sum(x.data if x is not None else self.data)) + float(getattr(self, 'bias', 0.0))
-        Sub = type('Own' + base_name, (base,), {'total': desc.setattr_on_read(total)})
+        Sub = own_class(base, {'total': total}, where, 'Own' + base_name)
         try:
             with oc.quiet():
                 if order == 'ancestor-first':
@@ -398,7 +426,7 @@ def own_one(key):
 
     def midpoint(self):
         return np.asarray(self.start) + np.asarray(self.duration) // 2
-    SubE = type('OwnEpochs', (ts.Epochs,), {'midpoint': desc.setattr_on_read(midpoint)})
+    SubE = own_class(ts.Epochs, {'midpoint': midpoint}, where, 'OwnEpochs')
     st = np.arange(0.0, 60.0, 10.0)
     if order == 'ancestor-first':
         e0 = ts.Epochs(st, duration=np.full(6, 4.0))
